@@ -79,10 +79,11 @@ claim("C14",
   "exists, every listed string decodes to a member whose .value is that string, whatever decodes is a listed string, everything else raises, no other members), enum_exact_int (no guard; int tables never raise), "
   "enum_dup_reported (a raw key equal to an earlier stored name raises, is never merged), literal_enum_exact, null_makes_nullable / no_null_plain / nullable_accepts_null, const_exact + py_eq_same_type; "
   "unreported_enum_class_exact / twins_share_only_equal_tables (on Scopes.model_decls, the model of EnumProperty.build's same-class-name test: an unreported enum holds under its class name exactly its own member table; equal member names with different wire values are reported, never merged); "
+  "enum_text_str / enum_text_int (Enums.enum_text: str(member) = format(member) = the text of the declared value - what header and path parameters send); "
   "`_refuted` witnesses: enum_silent_merge, enum_dup_crash, enum_backslash, nullable_passthrough, numeric alias (enum and const), const quote. All for unbounded lists/strings (induction), Unicode table facts "
   "regenerated. Tied to the code by (a) EnumProperty.values_from_list / EnumProperty.build / LiteralEnumProperty.build vs the model on hostile value lists, (a') documents with two enums deriving one class name (inline/inline, inline/component, property/parameter; case, delimiter, VALUE_n and int-vs-string twins) vs Scopes.model_decls plus a document oracle (every enum property generated without a diagnostic accepts exactly the values its own schema lists), (b) generated classes of both enum styles imported in a fresh "
   "interpreter: members, *_VALUES sets and the from_dict decode of every probe value (listed, same-type unlisted, Python-equal of another type, other types, null) and const checks vs the model, all evaluated inside Coq; "
-  "stage C evaluates the property's predicate on the generated classes and classifies deviations by the Coq guards.",
+  "(c) str()/format()/f-string of every generated member vs Enums.enum_text, and enum parameters (string and int, component and inline, both styles) in all four locations called once per member behind httpx.MockTransport, the captured path / query / header / cookie compared with the document's value text; stage C evaluates the property's predicate on the generated classes and classifies deviations by the Coq guards.",
   "Trusted: Coq kernel+vm_compute; CPython Enum value lookup / set membership / == as modelled by enum_lookup / literal_check / py_eq (correspondence only); identifiers are NFKC-normalised by CPython (member names are "
   "compared modulo that map); g_repr_printable and brace-free consts delimit the model's literal lexer (not defect classes); inline vs referenced enums share EnumProperty.build and are not distinguished.",
   "Coq proof (induction over value lists, literal round-trip lemmas) + in-Coq differential correspondence on parser and executed generated classes", "4/C14")
@@ -278,7 +279,7 @@ claim("C06",
   "Coq proof about the total model (exit rule, aggregation, termination bounds) + in-Coq differential correspondence + junk/mutation exploration with a wall-clock limit for the never-raises half", "4/C06")
 
 claim("C16",
-  "PARTIAL. Proved in Coq (35 theorems in props/C16.v, all closed under the global context): (1) frame - the table of EVERY syntactic read of a configuration option (Python ast of openapi_python_client/**/*.py + Jinja ast of "
+  "PARTIAL. Proved in Coq (39 theorems in props/C16.v, all closed under the global context): (1) frame - the table of EVERY syntactic read of a configuration option (Python ast of openapi_python_client/**/*.py + Jinja ast of "
   "every template, including reads through the derived values Project.project_name/package_name/version/project_dir/package_dir and the template globals built from them; regenerated by translate/gen_frame.py on every run; "
   "unclassifiable uses of the Config object become `?` rows) lies inside the per-option documented site set written from the README (file, function/macro, syntactic context such as `test`, `arg:PythonIdentifier:prefix`, "
   "`arg:write_text:encoding`): forallb (reads_within documented_sites) gen_option_reads = true by vm_compute reflection, with the soundness lemmas frame_sound / frame_reads_documented stating what the boolean means; "
@@ -291,7 +292,10 @@ claim("C16",
   "under the package prefix + exactly {pyproject.toml, README.md, .gitignore, setup.py for setup, <pkg>/py.typed}); title_prefix_option; literal_enum_same_wire (+ _refuted outside the typed guard) on Codec.v's step semantics; "
   "literal_enum_same_operations / literal_enum_same_macros (FrameCodec.validate_location over the regenerated _allowed_locations: an enum parameter is accepted in exactly the same locations, and the same wire macros exist, "
   "under both enum property classes, so literal_enums cannot change which operations are generated); project_name_override_verbatim / package_name_override_verbatim / package_name_is_dash_replacement / "
-  "package_name_keeps_other_chars (the derived package name is the project name with `-` replaced by `_` position by position and nothing else; the frame allows the project name to pass only through `.replace`). "
+  "package_name_keeps_other_chars (the derived package name is the project name with `-` replaced by `_` position by position and nothing else; the frame allows the project name to pass only through `.replace`); "
+  "all_writers_encoded / writers_sound (regenerated table of EVERY write_text / write_bytes / open-for-writing call of the package: each passes encoding=config.file_encoding) and docstring_literals_documented / "
+  "docstring_literals_sound (regenerated table of every `{{ expression }}` a template places inside a triple-quoted literal: only helpers.jinja's safe_docstring `content` and client.py.jinja's template-fixed texts, so "
+  "document text - in particular the attribute docstrings of docstrings_on_attributes - reaches a docstring only through the raw-literal-aware helper). "
   "Correspondence (vm_compute in coqc, ~1.4k cases quick): Class.from_string with random override tables / prefixes, prefix sensitivity of PythonIdentifier/ClassName, get_content_type + _source_by_content_type + body_from_data "
   "with random override tables on well-formed and hostile media type strings, endpoint_collections_by_tag for random tag lists with generate_all_tags on/off, ModelProperty.build's class for (title, name, parent, option), "
   "generated file sets per flavour. Stage C (metamorphic): plain + atlas + random documents extended with operations (several tags, octet/form/text/custom media types, names needing a prefix, titled inline objects, enums); "
@@ -305,7 +309,11 @@ claim("C16",
   "query/path/header/cookie required and optional and as array items, request/response bodies as the body itself / array items / inside models / map values / form fields) and on gen/ops.py's parameter atlas, alone and in the "
   "context of five other options: the set of api modules, the diagnostics and the parsed operations (parameters by location, bodies, statuses) must be identical and every call must put the same request on the wire and decode "
   "the same result. Naming overrides use mixed-case / camelCase / digit / `.` / ` ` / `__` strings; a probe generates into the default location (cwd) for project alone / package alone / both in every flavour and compares "
-  "directory names, pyproject/setup/README entries and the importable name with the documented rule computed without the implementation.",
+  "directory names, pyproject/setup/README entries and the importable name with the documented rule computed without the implementation. docstrings_on_attributes is additionally compared (alone and in the context of five "
+  "other options) on a document whose property / model / enum / parameter / operation / response descriptions carry backslashes forming invalid, unicode and hex escapes, a trailing backslash, quotes, braces, newlines and "
+  "non-ASCII text: only model modules and client.py may differ, and only in docstring statements (by AST, so both files must parse), both packages must import every module alike (an import_all operation now opens every wire "
+  "comparison) and round-trip / call alike. --file-encoding: every (flavour in none/poetry/pdm/setup) x (cp1252, utf-16) pair on a document with a non-ASCII title and descriptions: same file set as the utf-8 generation and "
+  "every file, decoded with the requested encoding, equals the utf-8 generation's text.",
   "NOT a theorem: that an option a function does not read cannot influence it (Python semantics; values the parser stores and passes on are not tracked by the syntactic frame) - trusted and probed by the metamorphic search. "
   "Trusted: Coq kernel+vm_compute; gen_frame.py; the documented site sets are a hand reading of README.md / CLI help (docstrings_on_attributes is also allowed in client.py.jinja, where the generator applies the same convention; "
   "inline children of an overridden class are renamed with it because their names are minted from the parent's class name); undoing a renaming is whole-word token replacement and files are then compared as multisets of lines "
